@@ -947,7 +947,7 @@ class IRGenerator:
                                 # However float type should always have default value in float
                                 default_value = float(default_value)
                             field.data_type.check(default_value)
-                        except ValueError as e:
+                        except (ValueError, OverflowError) as e:
                             raise InvalidSpec(
                                 'Field %s has an invalid default: %s' %
                                 (quote(field._ast_node.name), e),
